@@ -603,7 +603,7 @@ class _Rx(object):
                 # (a word character in the Unicode sense: letters of every script)
                 return ("set", False, [("0", "9"), ("a", "z"), ("A", "Z"), ("_", "_")] + [(ch, ch) for ch in RX_LETTERS])
             if e == "s":
-                return ("set", False, [(" ", " "), ("\t", "\t")])
+                return ("set", False, [(" ", " "), ("\t", "\r")])
             if e in self.META or e in "-/ ":
                 return ("lit", e)
             return None
@@ -648,9 +648,10 @@ def _rx_match(node, value, pos, k):
 
         return rep(0, pos)
     if kind == "bol":
-        return pos == 0 and k(pos)
+        return (pos == 0 or value[pos - 1] == "\n") and k(pos)
     if kind == "eol":
-        return pos == len(value) and k(pos)
+        # (rules are multi-line expressions: `$` also matches before a line feed, `^` also after one)
+        return (pos == len(value) or value[pos] == "\n") and k(pos)
     if pos >= len(value):
         return False
     c = value[pos]
@@ -672,8 +673,9 @@ def regex_prefix_match(rule, value):
 
 
 def expect_regex(decl, fmt, value):
-    if any((ord(c) > 126 and c not in RX_LETTERS) or c in "\r\n" for c in value):
-        return (UNJUDGED, "RegEx value with non-ASCII characters or line breaks")
+    # line breaks inside a value: "." matches every character but a line feed; nothing else of the subset matches them
+    if any(ord(c) > 126 and c not in RX_LETTERS for c in value):
+        return (UNJUDGED, "RegEx value with non-ASCII characters")
     try:
         result = regex_prefix_match(decl.get("rule") or "", value)
     except RecursionError:
